@@ -732,6 +732,9 @@ class SamplerExtractor(FunctionExtractor):
         e = _end(n['range']['end'])
         inner = n['inner']
         # inner[0] = operator() ref, inner[1] = object, inner[2] = generator
+        if len(inner) != 3:
+            # e.g. `generator()`: raw engine output used directly -- outside the sampler contracts (the engine's range and bit quality are not modelled)
+            raise ExtractionError('operator call that is not a distribution(generator) draw (raw engine output?) in ' + self.qual)
         obj = inner[1]
         while obj.get('kind') == 'ImplicitCastExpr':
             obj = obj['inner'][0]
